@@ -142,11 +142,11 @@ def hypW (closed : Bool) (fmt : Fmt) (c0 : Option (List ChnaEntry)) (a0 b0 : Opt
   if closed then
     fmt.okB && chnaOkB c0 && chnaOkB cF && bytesPackable a0 && bytesPackable aF && bytesPackable b0 && bytesPackable bF
       && n % fmt.blockAlign == 0 && decide (n < 2 ^ 63)
-  else chnaOkB c0 && bytesPackable a0 && bytesPackable b0 && decide (n < 2 ^ 32 - 1)
+  else chnaOkB c0 && bytesPackable a0 && bytesPackable b0
 
 def showErr : Err → String
   | .struct => "struct" | .notRiff => "notRiff" | .notWave => "notWave" | .missingDs64 => "missingDs64"
-  | .badId => "badId" | .chunkEnd => "chunkEnd" | .missingChunk => "missingChunk" | .fmtSize => "fmtSize"
+  | .badId => "badId" | .chunkEnd => "chunkEnd" | .dataPlaceholder => "dataPlaceholder" | .missingChunk => "missingChunk" | .fmtSize => "fmtSize"
   | .cbSize => "cbSize" | .fmtInvalid => "fmtInvalid" | .chnaTracks => "chnaTracks"
   | .unsupported => "unsupported" | .fuel => "fuel"
 
